@@ -341,3 +341,44 @@ def run(ctx):
     ctx.ob(ok, 'every successful connection-opened event has reset the engine\'s decoder', 'scope|opened-resets-decoder', loc=op.loc())
     lt = [(i, show(rve)) for (i, s_, pe, rve) in ctx.fn('Decoder::decode_bytes').field_writes() if show(pe) == 'self.state']
     ctx.ob(any(x == 'DecoderState::TerminalError{}' for i, x in lt), 'the decoder latches its error state (so the reset above is what ends it)', 'scope|latch', loc=rc.loc())
+
+    # ---- added after the mutation sweep
+    ctx.rule('R-C11-10', 'T2\' + T17', 'a failure while processing inbound data always leaves the incoming-data handler as an error (nothing after the failing packet is processed); a successful CONNACK performs every per-connection state change; a server DISCONNECT always ends the connection')
+    inc_ = ctx.fn('ProtocolState::handle_network_event_incoming_data')
+    for pat, what in ((r'^Decoder::decode_bytes\(.*\) is Err$', 'a decoding failure'), (r'^validate::validate_packet_inbound_internal\(.*\) is Err$', 'an inbound validation failure'),
+                      (r'^ProtocolState::handle_packet\(.*\) is Err$', 'a packet handler failure'), (r'^InboundAliasResolver::resolve_topic_alias\(.*\) is Err$', 'an alias resolution failure')):
+        ra = prims.rets_after(inc_, [pat])
+        callname = pat[1:].split('\\(')[0]
+        ctx.ob(ra == {'Err'} or (ra is not None and ra and all(x == 'Err' or x.startswith(callname + '(') for x in ra)),
+               'incoming data: %s always returns an error (outcomes reachable after it: %s)' % (what, sorted(ra or ['pattern not found'])), 'inbound-fail|' + what.split()[1], loc=inc_.loc())
+    NOTSENT = [r'^\(self\.state == ProtocolStateType::PendingConnack\{\}\)$']
+    for cond in (r'^ProtocolState::is_connect_in_queue\(self\)$', r'^self\.current_operation is Some$', r'^self\.pending_write_completion$'):
+        ra = prims.rets_after(inc_, NOTSENT + [cond])
+        ctx.ob(ra == {'Err'}, 'incoming data while pending CONNACK with the CONNECT not yet flushed (%s) is always a protocol error (%s)' % (cond, sorted(ra or ['pattern not found'])), 'early-data|' + cond[:30], loc=inc_.loc())
+    icp = ctx.fn('ProtocolState::is_connect_packet')
+    rv_ = [(show(e), guard_strs(icp, b)) for b, e in prims.ret_variants(icp)]
+    ctx.ob(any(x in ('(mqtt::mqtt_packet_to_packet_type((HashMap::get(self.operations, id))@Some.0.packet) == PacketType::Connect{})', 'PartialEq::eq(mqtt::mqtt_packet_to_packet_type((HashMap::get(self.operations, id))@Some.0.packet), PacketType::Connect{})') or
+               re.search(r'mqtt_packet_to_packet_type\(.*\.packet\).*PacketType::Connect\{\}', x) is not None and not x.startswith('!') and ' != ' not in x and 'Not(' not in x for x, g in rv_) and
+           any(x == 'False' and any(re.search(r'HashMap::get\(self\.operations, id\) is None$', y) for y in g) for x, g in rv_),
+           'is_connect_packet is true exactly for an existing operation whose packet type is CONNECT (%s)' % [x[:80] for x, g in rv_], 'early-data|is-connect', loc=icp.loc())
+    hc_ = ctx.fn('ProtocolState::handle_connack')
+    okb_ = prims.ok_blocks(hc_)
+    eff_ = prims.must_field_effects(F, hc_, targets=okb_)
+    for f_, w_ in (('state', None), ('has_connected_successfully', 'True'), ('current_settings', None), ('connack_timeout_timepoint', 'Option::None{}'), ('ping_timeout_timepoint', 'Option::None{}'), ('next_ping_timepoint', None)):
+        vals = eff_.get(f_, set())
+        ctx.ob(bool(vals) and (w_ is None or w_ in vals), 'every accepted CONNACK writes `%s`%s (found %s)' % (f_, '' if w_ is None else ' := ' + w_, sorted(vals)[:3]), 'connack-effects|' + f_, loc=hc_.loc())
+    hd_ = ctx.fn('ProtocolState::handle_disconnect')
+    rets_ = {('Err' if (e[0] == 'agg' and e[2] == 'Err') else show(e)) for b, e in prims.ret_variants(hd_)}
+    ctx.ob(rets_ == {'Err'}, 'a server DISCONNECT never leaves the engine connected: every outcome of its handler is an error (%s)' % sorted(rets_), 'server-disconnect', loc=hd_.loc())
+    r311 = prims.rets_after(hd_, [r'^\(self\.protocol_version == ProtocolVersion::Mqtt311\{\}\)$'])
+    ev311 = [c for c in hd_.calls('VecDeque::push_back') if 'packet_events' in show(c.arg(0))]
+    ctx.ob(r311 == {'Err'} and len(ev311) == 1 and guarded_any(hd_, ev311[0].bb, [r'^!\(self\.protocol_version == ProtocolVersion::Mqtt311\{\}\)$']), 'MQTT 3.1.1: a server DISCONNECT is a protocol error and is not surfaced as an event', 'server-disconnect|311', loc=hd_.loc())
+    # ---- added after seed C11-3b: the lifecycle handlers (opened / closed) cannot fail for reasons a user or server can cause
+    from .. import errflow
+    ALLOW_ = {('protocol::ProtocolState::handle_network_event_connection_opened', 'new_internal_state_error'),
+              ('protocol::ProtocolState::handle_network_event_connection_closed', 'new_internal_state_error')}
+    for hn_ in ('handle_network_event_connection_opened', 'handle_network_event_connection_closed'):
+        hv_ = ctx.fn('ProtocolState::' + hn_)
+        for o in sorted(errflow.origins(F, hv_)):
+            ctx.ob(o in ALLOW_, '%s can only fail with the engine-state mismatch error; it can return %s created in %s%s' % (hn_, o[1], short(o[0]), '' if o in ALLOW_ else ' — the client\'s state machine propagates it and the event loop ends'),
+                   'lifecycle-errors|%s|%s|%s' % (hn_, short(o[0]), o[1]), loc=hv_.loc(), rule='R-C11-3')
